@@ -314,7 +314,9 @@ def gen(tier, rng):
     decls = [o for o in AM if o["k"] in ("dimas", "dimsfx", "const")] + [mk("let", "A", sfx=s) for s in SFX]
     for dcl in decls:
         for s1 in AS:
-            for s2 in (AS if tier == "thorough" else rng.sample(AS, 5)):
+            # after a SHARED declaration every pair of statements of the SUB is tried (what the SUB already knows of the base
+            # name - another suffix, a declaration of its own - must not change what SHARED means), else a sample
+            for s2 in (AS if tier == "thorough" or dcl.get("shared") else rng.sample(AS, 5)):
                 main = [dcl, mk("let", "A", sfx=""), {"k": "call"}] + final_prints(["A"])
                 if dcl["k"] == "const":
                     main = [dcl, {"k": "call"}] + final_prints(["A"])
